@@ -356,6 +356,75 @@ def check_range_close(rec, W):
                             rec.violation("C05/H5-%s-closed-%d-times" % (name, get()), f"{case}", case, monitor="H5")
 
 
+def check_repeated_entries(rec, W):
+    """History of the header list: the application (or an upstream response it was built from) left a header in the list
+    more than once, spelled the way werkzeug itself spells it; then werkzeug computes the value anew (a new body, a
+    conditional answer, the Location made absolute and ASCII).  What reaches the server carries the fresh value only."""
+    Response, create_environ = W.Response, W.create_environ
+    for how in ("constructor-list", "add-add", "from-upstream"):
+        for change in ("set_data", "data-setter", "freeze", "make_conditional", "none"):
+            for name in ("Content-Length", "content-length", "CONTENT-LENGTH"):
+                if how == "constructor-list":
+                    r = Response(b"hello", headers=[(name, "5"), ("X-A", "1"), (name, "5")])
+                elif how == "add-add":
+                    r = Response(b"hello")
+                    r.headers.add(name, "5")
+                    r.headers.add(name, "5")
+                else:
+                    def upstream(environ, start_response, name=name):
+                        start_response("200 OK", [(name, "5"), (name, "5"), ("Content-Type", "text/plain")])
+                        return [b"hello"]
+
+                    r = Response.from_app(upstream, create_environ("/"))
+                body = b"hello"
+                env = create_environ("/")
+                if change == "set_data":
+                    r.set_data(b"hi")
+                    body = b"hi"
+                elif change == "data-setter":
+                    r.data = "h\u00e9llo w\u00f6rld"
+                    body = "h\u00e9llo w\u00f6rld".encode()
+                elif change == "freeze":
+                    r.response = [b"he", b"y"]
+                    r.freeze()
+                    body = b"hey"
+                elif change == "make_conditional":
+                    r.response = [b"abc", b"d"]
+                    del r.headers["Content-Length"]
+                    r.headers.add(name, "4")
+                    r.headers.add(name, "4")
+                    r.make_conditional(env)
+                    body = b"abcd"
+                it, st, hd = r.get_wsgi_response(env)
+                data = b"".join(it)
+                if hasattr(it, "close"):
+                    it.close()
+                cls_ = [v for k, v in hd if k.lower() == "content-length"]
+                case = {"part": "repeated-entries", "how": how, "then": change, "spelling": name}
+                rec.case()
+                rec.nontrivial(("repeated-cl", how, change, name))
+                rec.observe("responses_with_a_repeated_content_length")
+                if data != body or any(v != str(len(body)) for v in cls_) or (change in ("set_data", "data-setter", "freeze") and len(cls_) != 1):
+                    rec.violation("C05/H2-content-length-mismatch", f"{name} was in the header list twice ({how}), then {change}: the server gets Content-Length values {cls_!r} with a body of {len(data)} bytes", case, monitor="H2")
+                    return
+    iri = "/k\u00e4se/\u00fcber uns?q=\u00e4"
+    for name in ("Location", "location"):
+        for auto in (True, False):
+            r = Response(status=302)
+            r.headers.add(name, iri)
+            r.headers.add(name, iri)
+            r.autocorrect_location_header = auto
+            it, st, hd = r.get_wsgi_response(create_environ("/p"))
+            b"".join(it)
+            locs = [v for k, v in hd if k.lower() == "location"]
+            rec.case()
+            rec.nontrivial(("repeated-location", name, auto))
+            rec.observe("responses_with_a_repeated_location")
+            if not locs or any(not v.isascii() or " " in v for v in locs):
+                rec.violation("C05/H3-location-not-ascii-uri", f"{name} was added twice with {iri!r}: the server gets {locs!r}", {"part": "repeated-entries", "header": name, "autocorrect": auto}, monitor="H3")
+                return
+
+
 def check_reuse_and_faulty_callback(rec, W):
     """History: one response object served twice - each serve closes the body and runs the callbacks once more, not
     twice.  Fault: the last registered callback raises when the server closes the response - the body is closed
@@ -806,6 +875,7 @@ def run(shard, rec, rng):
     if shard["index"] == 0:
         check_range_close(rec, W)
         check_reuse_and_faulty_callback(rec, W)
+        check_repeated_entries(rec, W)
     if shard["index"] % 4 == 1:
         check_stream_histories(rec, W, rng, 400)
     if shard["index"] % 4 == 2:
